@@ -310,7 +310,18 @@ def extendLocation (l : Loc) (distance maximum : Int) (circular : Bool) : E Loc 
   | some p0, some pn =>
     let ns := p0.lo - distance
     let ne := pn.hi + distance
-    if circular && ns < 0 && ns + maximum ≤ ne then
+    -- (repair D59) an origin-spanning location whose two ends pass each other once extended
+    if circular && decide (parts0.length > 1) && bridgesOrigin l
+        && decide (0 ≤ p0.lo - pn.hi) && decide (p0.lo - pn.hi < 2 * distance) then
+      let gap := p0.lo - pn.hi
+      if parts0.length == 2 && p0.hi == maximum && pn.lo == 0 then pure (.simple ⟨0, maximum, s⟩)
+      else
+        let after := min distance gap
+        let parts1 := setHead parts0 ⟨p0.lo - (gap - after), p0.hi, s⟩
+        let lastNow := (parts1.getLast?).getD pn
+        let parts2 := setLast parts1 ⟨lastNow.lo, pn.hi + after, s⟩
+        pure (.compound (if s == .rev then parts2.reverse else parts2))
+    else if circular && ns < 0 && ns + maximum ≤ ne then
       -- both sides extend past the edges and then overlap
       let parts1 := setHead parts0 ⟨0, p0.hi, s⟩
       let lastNow := (parts1.getLast?).getD pn
